@@ -24,6 +24,12 @@ PROPS = {
     "C06": dict(streams=["c06", "c01"], items=["keycodes", "layoutkeys", "charclasses", "rankcmp", "okkhor"]),
     "C07": dict(streams=["c07"], items=["keycodes", "charclasses", "rankcmp", "okkhor"]),
     "C08": dict(streams=["c07"], items=["keycodes", "charclasses", "rankcmp", "okkhor"]),
+    "C09": dict(streams=["c09"], items=["keycodes", "charclasses", "rankcmp", "okkhor"]),
+    "C10": dict(streams=["c10"], items=["keycodes", "charclasses", "rankcmp", "okkhor"]),
+    "C11": dict(streams=["c11"], items=["keycodes", "layoutkeys", "charclasses", "rankcmp", "okkhor"]),
+    "C15": dict(streams=["c15"], items=["keycodes", "layoutkeys", "charclasses", "rankcmp"]),
+    "C16": dict(streams=["c16"], items=["keycodes", "layoutkeys", "charclasses", "rankcmp", "okkhor"]),
+    "C17": dict(streams=["c17"], items=["keycodes", "layoutkeys", "charclasses", "rankcmp", "okkhor"]),
     "C12": dict(streams=["c12"], items=["keycodes", "layoutkeys", "charclasses"]),
     "C13": dict(streams=["c13"], items=["keycodes", "layoutkeys", "charclasses"]),
     "C14": dict(streams=["c14"], items=["keycodes", "layoutkeys", "charclasses"]),
